@@ -1,6 +1,7 @@
 #!/bin/bash
-# run_all_seeded.sh [tier] [parallelism]: run every stored seeded change against its property's check; writes seeded/RESULTS.md
-tier="${1:-quick}"; par="${2:-6}"
+# run_all_seeded.sh [tier] [parallelism] [name-glob]: run every stored seeded change (or those whose directory name matches
+# the glob, e.g. 'r5m*': their rows are then merged into the existing table) against its property's check; writes seeded/RESULTS.md
+tier="${1:-quick}"; par="${2:-6}"; pat="${3:-}"
 cd /verif
 tmp=$(mktemp -d /tmp/seedall.XXXXXX)
 one() {
@@ -26,8 +27,27 @@ one() {
   echo "$d $rc"
 }
 export -f one
-ls -d seeded/C*/*m[0-9]* | xargs -P $par -I{} bash -c "one {} $tier $tmp"
 out=seeded/RESULTS.md
+if [ -n "$pat" ]; then
+  ls -d seeded/C*/$pat | xargs -P $par -I{} bash -c "one {} $tier $tmp"
+  python3 - "$out" $tmp <<'PY'
+import sys, os, glob
+out, tmp = sys.argv[1], sys.argv[2]
+lines = open(out).read().splitlines()
+head, rows = lines[:4], {l.split('|')[1].strip(): l for l in lines[4:] if l.startswith('|')}
+for f in glob.glob(tmp + '/*'):
+    l = open(f).read().strip(); rows[l.split('|')[1].strip()] = l
+def key(k):
+    import re
+    pid, m = k.split('/')[1:3]; r = re.match(r'(?:r(\d+))?m(\d+)', m)
+    return (pid, int(r.group(1) or 1), int(r.group(2)))
+open(out, 'w').write('\n'.join(head + [rows[k] for k in sorted(rows, key=key)]) + '\n')
+PY
+  rm -rf $tmp
+  grep -c "caught" $out; grep -v "caught" $out | tail -n +4
+  exit 0
+fi
+ls -d seeded/C*/*m[0-9]* | xargs -P $par -I{} bash -c "one {} $tier $tmp"
 { echo "# Seeded changes vs checks (default tier: $tier)"; echo; echo "| seeded change | needs | check result |"; echo "|---|---|---|"; cat $tmp/* ; } > $out
 rm -rf $tmp
 grep -c "caught" $out; grep -v "caught" $out | tail -n +4
